@@ -19,7 +19,7 @@ def params(tier, rng):
     out = []
     for S in ([1, 2, 3, 8] if tier == "quick" else range(1, 13)):
         out.append({"kind": "forest", "S": S, "p": rng.choice([0.0, 0.25, 0.5, 1.0])})
-    dm = [(1, 1, 2, 3), (2, 1, 3, 4), (2, 2, 2, 3), (3, 1, 2, 3), (2, 3, 2, 2), (1, 4, 2, 2), (4, 1, 1, 2),
+    dm = [(1, 1, 128, 1), (1, 1, 2, 3), (2, 1, 3, 4), (2, 2, 2, 3), (3, 1, 2, 3), (2, 3, 2, 2), (1, 4, 2, 2), (4, 1, 1, 2),
           (5, 1, 1, 2), (3, 3, 1, 3), (2, 4, 1, 2), (3, 2, 2, 5)]
     if tier == "thorough":
         dm += [(m, L, Q, D) for m in range(1, 6) for L in range(1, 5) for Q in (1, 2) for D in (2, 4)
